@@ -47,7 +47,48 @@ def rule_flatten(prog: Program, rep: Report, R: str):
     I = ("sym", "I")
     got = Interp(prog).eval_method(c, "__getitem__", [I])
     want = eval_ref_method(prog, c, ref, [I])
-    compare(rep, R, method_site(prog, c, "__getitem__"), "Chain.__getitem__", got, want, "__getitem__")
+    if not equal(got, want):
+        # decide by cases on the type of the index (int / slice are disjoint; anything else must raise)
+        it_g = Interp(prog)
+        g2 = it_g.eval_method(c, "__getitem__", [I])
+        from .c13 import guard_list
+        from ..terms import renorm, TRUE, FALSE, mk_not
+
+        def under(t, case):
+            def f(s2):
+                if s2[0] == "call" and s2[1] == ("ext", "builtins.isinstance") and len(s2[2]) == 2 and s2[2][0] == I:
+                    names = [x[1] for x in walk(s2[2][1]) if x[0] == "ext"]
+                    return TRUE if f"builtins.{case}" in names else FALSE
+                if s2[0] in ("ite", "not"):
+                    return renorm(s2)
+                if s2[0] in ("and", "or"):
+                    vals = list(s2[1])
+                    if s2[0] == "and":
+                        if any(v == FALSE for v in vals):
+                            return FALSE
+                        vals = [v for v in vals if v != TRUE]
+                        return TRUE if not vals else vals[0] if len(vals) == 1 else ("and", tuple(vals))
+                    if any(v == TRUE for v in vals):
+                        return TRUE
+                    vals = [v for v in vals if v != FALSE]
+                    return FALSE if not vals else vals[0] if len(vals) == 1 else ("or", tuple(vals))
+                return None
+            return subst(t, f)
+        gl = guard_list(it_g)
+        cases_ok = True
+        for case in ("int", "slice"):
+            raises = any(under(g[0], case) == TRUE and all(under(pc, case) == TRUE for pc in g[2]) for g in gl)
+            if raises or not equal(under(g2, case), under(want, case)):
+                cases_ok = False
+        other_raises = under(g2, "other")[0] == "raises" or any(
+            under(g[0], "other") == TRUE and all(under(pc, "other") == TRUE for pc in g[2]) for g in gl)
+        if cases_ok and other_raises:
+            rep.holds(R, method_site(prog, c, "__getitem__"), "Chain.__getitem__",
+                      "by cases on type(i): int -> the member, slice -> Chain of the slice, anything else raises")
+        else:
+            compare(rep, R, method_site(prog, c, "__getitem__"), "Chain.__getitem__", got, want, "__getitem__")
+    else:
+        compare(rep, R, method_site(prog, c, "__getitem__"), "Chain.__getitem__", got, want, "__getitem__")
     got = Interp(prog).eval_method(c, "__len__", [])
     compare(rep, R, method_site(prog, c, "__len__"), "Chain.__len__", got,
             ("call", ("ext", "builtins.len"), (("attr", SELF, "bijections"),), ()), "__len__")
@@ -181,6 +222,9 @@ def _merge_chains(prog, rep, R, c):
     S = seqs[0]
     # prologue: S = self.bijections
     pro = eval_stmts(prog, c, body[:wi], [], [S]) if wi else None
+    if pro is not None and pro[0] == "tuple" and len(pro[1]) == 1 and pro[1][0][0] == "call" and pro[1][0][1] in (
+            ("ext", "builtins.list"), ("ext", "builtins.tuple")) and len(pro[1][0][2]) == 1 and not pro[1][0][3]:
+        pro = ("tuple", (pro[1][0][2][0],))  # a copy of the sequence has the same elements
     ok_pro = pro is not None and pro == ("tuple", (("attr", SELF, "bijections"),))
     rep.check(ok_pro, R, site, "Chain.merge_chains:start", "starts from self.bijections",
               f"flattening starts from {show(pro, 120) if pro else None}")
@@ -339,6 +383,11 @@ def _flatten_merge_body(prog, c, body):
             stmts = list(st.body)
         elif is_ret_self(st.body):
             stmts = list(st.orelse)
+    elif len(stmts) == 2 and isinstance(stmts[0], ast.If) and not stmts[0].orelse and stmts[0].body and \
+            isinstance(stmts[0].body[-1], ast.Return) and isinstance(stmts[1], ast.Return) and \
+            isinstance(stmts[1].value, ast.Name) and stmts[1].value.id == "self" and len(stmts[0].body) > 1:
+        # if nested: <stmts ... return merged>   followed by   return self
+        stmts = list(stmts[0].body)
     elif stmts and isinstance(stmts[0], ast.If) and not stmts[0].orelse and len(stmts[0].body) == 1 and \
             isinstance(stmts[0].body[0], ast.Return):
         stmts = stmts[1:]
